@@ -157,6 +157,8 @@ pub struct SockState {
     pub flush_waker: Option<Waker>,
     pub flush_left: u32,
     pub flush_calls: u64,
+    /// steps at which poll_flush completed
+    pub flush_ready_steps: Vec<u64>,
     pub shutdown_called: Option<(u64, u64)>,
     pub shutdown_done: Option<(u64, u64)>,
     pub shutdown_ready: bool,
@@ -195,6 +197,7 @@ impl SockState {
             flush_blocked: false,
             flush_waker: None,
             flush_calls: 0,
+            flush_ready_steps: Vec::new(),
             shutdown_called: None,
             shutdown_done: None,
             shutdown_ready: false,
@@ -509,6 +512,10 @@ impl AsyncWrite for ServerEnd {
             }
         }
         st.flush_staged();
+        let step = st.clock.step();
+        if st.flush_ready_steps.last() != Some(&step) {
+            st.flush_ready_steps.push(step);
+        }
         Poll::Ready(Ok(()))
     }
 
